@@ -447,11 +447,34 @@ def o5_map(u, rep, gp, cb):
     - growpollfd writes the descriptor into fds[nfds], records nfds as that descriptor's position, and only then counts it;
     - clearbit, when it vacates an entry, unlinks the vacated descriptor, and after moving the last entry in, records the slot
       as the moved descriptor's position, before the count goes down."""
+    alias = {}
+    for fx in u.funcs:
+        if fx.file != u.path:
+            continue
+        for e in fx.all_elems():
+            if e.cls == "DeclStmt":
+                for d in e.decls or []:
+                    if isinstance(d, dict) and d.get("init"):
+                        v = norm(fx.elem(d["init"]))
+                        if v[0] == "call" and v[1] == "socketlist_get":
+                            alias[("v", d["name"], d["id"])] = v
+            elif e.is_assign and e.op == "=" and norm(e.kid(0))[0] == "v" and norm(e.kid(1))[0] == "call" and norm(e.kid(1))[1] == "socketlist_get":
+                alias[norm(e.kid(0))] = norm(e.kid(1))
+
     def recfield(t):
-        """(index term, field) of socketlist_get(S, i)->field"""
-        if t[0] == "." and t[1][0] == "*" and t[1][1][0] == "call" and t[1][1][1] == "socketlist_get" and len(t[1][1]) >= 4:
-            return t[1][1][3], t[2]
+        """(index term, field) of socketlist_get(S, i)->field, directly or through a local that holds the record's address"""
+        if t[0] == "." and t[1][0] == "*":
+            c = alias.get(t[1][1], t[1][1])
+            if c[0] == "call" and c[1] == "socketlist_get" and len(c) >= 4:
+                return c[3], t[2]
         return None
+
+    def stored(e):
+        """value stored by x = y = ... = v"""
+        r = e.kid(1)
+        while r is not None and r.strip() is not None and r.strip().is_assign and r.strip().op == "=":
+            r = r.strip().kid(1)
+        return norm(r) if r is not None else None
     # new table records
     gs = [f for f in u.funcs if f.file == u.path and any(True for _ in f.calls("socketlist_resize"))]
     rt = None
@@ -467,7 +490,7 @@ def o5_map(u, rep, gp, cb):
         if e.is_assign and e.op == "=":
             rf = recfield(norm(e.kid(0)))
             if rf is not None:
-                init[rf[1]] = (norm(e.kid(1)), rf[0], e)
+                init[rf[1]] = (stored(e), rf[0], e)
     want = {}
     for x in rt["fields"]:
         k = (u.types.get(x["ty"]) or {}).get("kind")
@@ -683,8 +706,8 @@ def o7_slotrange(prog, rep):
                               "events_network_cancel refuses a descriptor as unknown only when its number is not below the table's size", e.where,
                               "on this edge the descriptor may still be below the size: a registration that exists is reported as absent and stays in place",
                               function=name, construct="cancel-range")
-    if n < 12:
-        rep.defer_broken("O7: fewer than 12 table accesses found in events_network.c")
+    if n < 8:
+        rep.defer_broken("O7: fewer than 8 table accesses found in events_network.c")
 
 
 def run(tier):
